@@ -41,6 +41,17 @@ CLAIMED = {
         "Start-of-year cells of pct/apct under 'tty' are not judged; diff_log 'tty' start-of-year cells only required finite; tolerance 1e-11 relative.",
         "DESIGN.md section 3, C13",
     ),
+    "C01": (
+        "Hypothesis-generated structural models rendered to source; own evaluator residuals on simulated paths with leads from model-consistent continuations; own companion-pencil eigenvalues and Blanchard-Kahn rank condition",
+        "Models are drawn as coefficient structures (1-4 variables, lags<=3, leads<=2, constants, parameters, measurement block, additive or "
+        "exactly log-linear rendering) so the harness can evaluate every equation itself. For models its own eigenvalue computation classifies "
+        "determinate, first-order simulations with drawn initial conditions and dated unanticipated/anticipated/measurement shocks must make "
+        "every equation hold (leads read from the continuation re-simulated under each information set), agree with their continuations, return "
+        "to the steady state 400 periods ahead, satisfy the measurement equations, obey levels = steady (+|*) deviations and be time consistent; "
+        "the unstable-root count must equal the number of leads iff the harness classifies the model determinate, and finite eigenvalue moduli must agree.",
+        "Trusts numpy/scipy eig/ordqz for the classification; near-unit-root (|lambda| in [0.93,1.07]) and rank-deficient models are not judged; small well-conditioned models only.",
+        "DESIGN.md section 3, C01",
+    ),
 }
 
 NOT_BUILT_REASON = "check not built yet in this round (design in DESIGN.md section 3); not claimed until it is quiet on the unchanged tree and kills its mutants"
